@@ -11,7 +11,7 @@
   empty queue), malformed submissions in between — and any start width.
   Helper lemmas: `AcnProofs/Lemmas/Pilots*.lean`.
 -/
-import AcnProofs.Lemmas.PilotsRun
+import AcnProofs.Lemmas.PilotsStep
 
 set_option linter.unusedSectionVars false
 
@@ -360,5 +360,138 @@ example :
     runPeriods ["A", "B"] (Mat.zeros 2 1 : Mat ℤ)
       [⟨0, some 2, some [("A", [1, 2, 3])]⟩, ⟨1, some 2, none⟩, ⟨2, none, some [("B", [7, 8, 9])]⟩]
     = .ok (⟨[[1, 2, 0, 0, 0], [0, 0, 7, 8, 9]], 5⟩, [[1, 0], [2, 0], [0, 7]]) := by rfl
+
+/-! ### `step()`-driven simulations, and any mixture of loop trips -/
+
+/-- `run()` is the instance of the generic trip sequence whose growth target is `runWidth`. -/
+theorem runPeriods_eq_runTrips (stations : List String) (m : Mat K) (ps : List (Period K)) :
+    runPeriods stations m ps = runTrips stations m (tripsOfRun ps) :=
+  runPeriods_eq_runTrips' stations m ps
+
+/-- **Applied pilots, generic.**  For ANY sequence of loop trips — trips of `run()`, trips of
+    `step()`, mixed, each growing the matrix to an arbitrary target — that does not raise: the final
+    matrix is the spec of all submissions and the column handed to the EVSEs in the `k`-th trip is
+    `pilotAt` of the submissions made up to and including that trip. -/
+theorem trips_applied_eq_spec {stations : List String} (hn : stations.Nodup) (w : Nat)
+    (trips : List (Period K × Nat)) (m' : Mat K) (cols : List (List K))
+    (hrun : runTrips stations (Mat.zeros stations.length w) trips = .ok (m', cols)) :
+    m'.WF stations.length
+    ∧ (∀ st τ, m'.get (stations.idxOf st) τ = pilotAt stations (subsOf (trips.map Prod.fst)) st τ)
+    ∧ cols.length = trips.length
+    ∧ ∀ k (hk : k < trips.length), cols[k]? =
+        some (stations.map fun st =>
+          pilotAt stations (subsOf ((trips.take (k + 1)).map Prod.fst)) st trips[k].1.t) := by
+  obtain ⟨k1, k2, k3, k4⟩ := runTrips_spec hn trips _ m' cols (zeros_wf _ _) hrun
+  refine ⟨k1, ?_, k3, ?_⟩
+  · intro st τ; rw [k2, zeros_get]; rfl
+  · intro k hk
+    rw [k4 k hk]
+    congr 1
+    apply List.map_congr_left
+    intro st _
+    rw [zeros_get]; rfl
+
+/-- **`step()`-driven simulation.**  A list of calls `step(sched_j)`, the `j`-th making a loop trip at
+    each `(t, lastTs)` of `its_j` and submitting the SAME schedule in each: if nothing raises, the
+    matrix afterwards is the spec of the submissions `(t, sched_j)` in the order made. -/
+theorem step_applied_eq_spec {stations : List String} (hn : stations.Nodup) (w : Nat)
+    (calls : List (Sched K × List (Nat × Option Nat))) (m' : Mat K) (cols : List (List K))
+    (hrun : runTrips stations (Mat.zeros stations.length w) (tripsOfSteps calls) = .ok (m', cols)) :
+    m'.WF stations.length
+    ∧ (∀ st τ, m'.get (stations.idxOf st) τ =
+        pilotAt stations
+          (calls.flatMap fun c => c.2.map fun it => (⟨it.1, it.2, c.1⟩ : Submission K)) st τ)
+    ∧ cols.length = (tripsOfSteps calls).length := by
+  obtain ⟨k1, k2, k3, -⟩ := trips_applied_eq_spec hn w _ m' cols hrun
+  refine ⟨k1, ?_, k3⟩
+  intro st τ
+  rw [k2, subsOf_tripsOfSteps]
+
+/-- `step()` grows to `max(lastTs+1, t+1)`: column `t` always exists, whatever the queue says, so a
+    step-driven simulation can only fail on the matrix through a rejected schedule. -/
+theorem step_no_indexError {stations : List String} (w : Nat)
+    (calls : List (Sched K × List (Nat × Option Nat))) :
+    runTrips stations (Mat.zeros stations.length w) (tripsOfSteps calls) ≠ .error .indexError := by
+  apply runTrips_no_indexError' _ _ (zeros_wf _ _)
+  intro pw hpw
+  simp only [tripsOfSteps, tripsOfStep, List.mem_flatMap, List.mem_map] at hpw
+  obtain ⟨c, -, it, -, rfl⟩ := hpw
+  exact lt_stepWidth _ _
+
+/-- two `step` calls: the first makes trips at t = 0, 1 (its schedule re-submitted at 1 shifts it by
+    one period), the second one trip at t = 2 with a longer horizon -/
+example :
+    runTrips ["A", "B"] (Mat.zeros 2 1 : Mat ℤ)
+      (tripsOfSteps [([("A", [1, 2, 3])], [(0, some 2), (1, some 2)]), ([("B", [7, 8])], [(2, some 5)])])
+    = .ok (⟨[[1, 1, 0, 0, 0, 0], [0, 0, 7, 8, 0, 0]], 6⟩, [[1, 0], [1, 0], [0, 7]]) := by rfl
+
+/-! ### what a scheduler sees of the pilots applied before -/
+
+/-- `Interface.last_applied_pilot_signals` read at `iteration = t + 1` with `t > 0` (the code's
+    `i = iteration − 1 > 0`): for every active EV that had arrived by `t`, the pilot recorded for its
+    station in period `t` — which is the entry of the column that was applied in period `t`.
+    For `iteration ≤ 1` the code returns `{}` whatever was applied (second part). -/
+theorem last_applied_eq_column {stations : List String} {m : Mat K} (h : m.WF stations.length)
+    (t : Nat) (ht : 0 < t) (col : List K) (hc : appliedColumn m t = some col)
+    (active : List (String × String × Nat)) (hreg : ∀ a ∈ active, a.2.1 ∈ stations) :
+    (∃ vals, lastApplied stations m (t + 1) active = some vals
+      ∧ vals.map Prod.fst = (active.filter fun a => decide (a.2.2 ≤ t)).map (·.1)
+      ∧ ∀ k (hk : k < vals.length) (hk' : k < (active.filter fun a => decide (a.2.2 ≤ t)).length),
+          col[stations.idxOf ((active.filter fun a => decide (a.2.2 ≤ t))[k]).2.1]? = some vals[k].2)
+    ∧ ∀ it ≤ 1, lastApplied stations m it active = some [] := by
+  refine ⟨?_, fun it hit => lastApplied_early stations m it active hit⟩
+  have key : ∀ a ∈ active.filter (fun a => decide (a.2.2 ≤ t)), ∃ x,
+      col[stations.idxOf a.2.1]? = some x ∧
+      (if stations.contains a.2.1 then
+        match m.rows[stations.idxOf a.2.1]? with
+        | some r => (r[t]?).map fun x => (a.1, x)
+        | none => none
+      else none) = some (a.1, x) := by
+    intro a ha
+    have hs : a.2.1 ∈ stations := hreg a (List.mem_filter.1 ha).1
+    have hi : stations.idxOf a.2.1 < stations.length := List.idxOf_lt_length_iff.2 hs
+    obtain ⟨r, e1, e2, x, e3⟩ := appliedColumn_getElem h t col hc _ hi
+    refine ⟨x, by rw [← e2, e3], ?_⟩
+    rw [if_pos (List.contains_iff_mem.2 hs), e1]
+    simp [e3]
+  -- choose the values
+  have : ∃ vals : List (String × K),
+      (active.filter fun a => decide (a.2.2 ≤ t)).mapM (fun a =>
+        if stations.contains a.2.1 then
+          match m.rows[stations.idxOf a.2.1]? with
+          | some r => (r[t]?).map fun x => (a.1, x)
+          | none => none
+        else none) = some vals
+      ∧ vals.map Prod.fst = (active.filter fun a => decide (a.2.2 ≤ t)).map (·.1)
+      ∧ ∀ k (hk : k < vals.length) (hk' : k < (active.filter fun a => decide (a.2.2 ≤ t)).length),
+          col[stations.idxOf ((active.filter fun a => decide (a.2.2 ≤ t))[k]).2.1]? = some vals[k].2 := by
+    generalize active.filter (fun a => decide (a.2.2 ≤ t)) = l at key
+    induction l with
+    | nil => exact ⟨[], rfl, rfl, fun k hk => absurd hk (by simp)⟩
+    | cons a rest ih =>
+      obtain ⟨x, hx1, hx2⟩ := key a (List.mem_cons_self ..)
+      obtain ⟨vs, hv1, hv2, hv3⟩ := ih (fun b hb => key b (List.mem_cons_of_mem _ hb))
+      refine ⟨(a.1, x) :: vs, ?_, by simp [hv2], ?_⟩
+      · rw [List.mapM_cons, hx2, hv1]; rfl
+      · intro k hk hk'
+        cases k with
+        | zero => simpa using hx1
+        | succ k =>
+          simp only [List.getElem_cons_succ]
+          exact hv3 k (by simpa using hk) (by simpa using hk')
+  obtain ⟨vals, hv1, hv2, hv3⟩ := this
+  refine ⟨vals, ?_, hv2, hv3⟩
+  have hnot : ¬ (t + 1 ≤ 1) := by omega
+  simp only [lastApplied, hnot, if_false, Nat.add_sub_cancel]
+  exact hv1
+
+/-- period 2 applied [5, 9]; in period 3 the scheduler sees 5 for session x (station A, arrived at 0)
+    and nothing for y (station B, arrives at 3); in periods 0 and 1 it sees nothing at all -/
+example :
+    lastApplied ["A", "B"] (⟨[[1, 3, 5, 7], [2, 4, 9, 8]], 4⟩ : Mat ℤ) 3 [("x", "A", 0), ("y", "B", 3)]
+      = some [("x", 5)]
+    ∧ appliedColumn (⟨[[1, 3, 5, 7], [2, 4, 9, 8]], 4⟩ : Mat ℤ) 2 = some [5, 9]
+    ∧ lastApplied ["A", "B"] (⟨[[1, 3, 5, 7], [2, 4, 9, 8]], 4⟩ : Mat ℤ) 1 [("x", "A", 0)] = some [] := by
+  decide
 
 end Acn.C04
